@@ -1183,7 +1183,7 @@ class partition(Stream):
 
     def __init__(self, upstream, n, timeout=None, key=None, **kwargs):
         self.n = n
-        self._timeout = timeout
+        self._timeout = convert_interval(timeout)
         self._key = key
         self._buffer = defaultdict(lambda: [])
         self._metadata_buffer = defaultdict(lambda: [])
